@@ -275,6 +275,7 @@ pub struct Translation {
     pub max_segments: usize,
     pub files: BTreeMap<u32, Vec<u8>>, // final reconstructed contents
     pub unsupported: Vec<String>,
+    pub book_obs: Vec<BookObs>, // one per armed window: manifest range and segment-file records before / after
 }
 
 /// a record appended to a segment file (12-byte header at a block boundary + payload)
@@ -319,7 +320,7 @@ fn translate(parsed: &Parsed, spool: &Path, armed_ops: &[String], work: &Path, m
     let mut last_append: HashMap<u32, (u64, u64)> = HashMap::new(); // seg -> (offset, length) of the record being written
     let mut text = String::new();
     text.push_str("# translated I/O trace of the rollback log (format: ocaml/rb_cmds.ml); starting disk: no segment file\n");
-    let mut tr = Translation { text: String::new(), syncs: vec![], empty_windows: 0, empty_ops: vec![], events_tracked: 0, events_dropped: 0, foreign_writes: 0, payload_bytes: vec![], records: vec![], max_segments: 0, files: BTreeMap::new(), unsupported: vec![] };
+    let mut tr = Translation { text: String::new(), syncs: vec![], empty_windows: 0, empty_ops: vec![], events_tracked: 0, events_dropped: 0, foreign_writes: 0, payload_bytes: vec![], records: vec![], max_segments: 0, files: BTreeMap::new(), unsupported: vec![], book_obs: vec![] };
     let mut win: Option<Window> = None;
     let mut n_windows = 0usize;
     for it in &parsed.items {
@@ -327,10 +328,15 @@ fn translate(parsed: &Parsed, spool: &Path, armed_ops: &[String], work: &Path, m
             Item::Arm => {
                 let op = armed_ops.get(n_windows).cloned().unwrap_or_default();
                 n_windows += 1;
+                tr.book_obs.push(BookObs { pre_meta: meta, pre_present: present_records(&files), post_meta: meta, post_present: Err("window not closed".into()) });
                 win = Some(Window { op, snap: files.clone(), old_meta: meta, evs: vec![] });
             }
             Item::Disarm => {
                 resolve_payloads(&mut tr.records, &files);
+                if let Some(o) = tr.book_obs.last_mut() {
+                    o.post_meta = meta;
+                    o.post_present = present_records(&files);
+                }
                 let Some(w) = win.take() else { continue };
                 if w.evs.is_empty() {
                     tr.empty_windows += 1;
@@ -597,6 +603,14 @@ pub struct HistOutcome {
     pub delta_absent_priors_seen: usize,
     pub delta_payload_max: usize,
     pub delta_sample: Vec<String>,
+    // the bookkeeping model (RbBook.v) against the real manifest / segment files / rollback outcomes
+    pub book_histories: usize,
+    pub book_syncs_compared: usize,
+    pub book_reopens_compared: usize,
+    pub book_rollbacks_compared: usize,
+    pub book_refusals_agreed: usize,
+    pub book_records_compared: usize,
+    pub book_sample: Vec<String>,
 }
 
 fn kv_of(line: &str) -> HashMap<String, String> {
@@ -886,6 +900,177 @@ fn check_deltas(h: &History, prefix: &str, work: &Path, tr: &Translation, model:
     }
 }
 
+// ------------------------------------------------------------------------------------------
+// the bookkeeping of the rollback log (properties C09 / C10; coq/theories/RbBook.v)
+// ------------------------------------------------------------------------------------------
+
+/// what the real run shows around one armed window
+pub struct BookObs {
+    pub pre_meta: (u64, u64),
+    pub pre_present: Result<Vec<(u32, u64, u64)>, String>, // (segment, record id, blocks) in file order
+    pub post_meta: (u64, u64),
+    pub post_present: Result<Vec<(u32, u64, u64)>, String>,
+}
+
+/// the records in the reconstructed segment files: a walk over the 12-byte headers (payload length u32 LE,
+/// record id u64 LE) at 4 KiB aligned offsets, segments in the order of their ids
+fn present_records(files: &BTreeMap<u32, Vec<u8>>) -> Result<Vec<(u32, u64, u64)>, String> {
+    let mut out = Vec::new();
+    for (seg, f) in files {
+        let mut off = 0usize;
+        while off < f.len() {
+            if off + 12 > f.len() {
+                return Err(format!("segment {}: {} bytes, no room for a header at {}", seg, f.len(), off));
+            }
+            let plen = u32::from_le_bytes(f[off..off + 4].try_into().unwrap()) as u64;
+            let rid = u64::from_le_bytes(f[off + 4..off + 12].try_into().unwrap());
+            let blocks = (12 + plen + BLK - 1) / BLK;
+            if off as u64 + blocks * BLK > f.len() as u64 {
+                return Err(format!("segment {}: record {} at {} ({} blocks) exceeds the file ({} bytes)", seg, rid, off, blocks, f.len()));
+            }
+            out.push((*seg, rid, blocks));
+            off += (blocks * BLK) as usize;
+        }
+    }
+    Ok(out)
+}
+
+fn show_present(p: &Result<Vec<(u32, u64, u64)>, String>) -> String {
+    match p {
+        Err(e) => format!("undecodable ({})", e),
+        Ok(v) if v.is_empty() => "-".into(),
+        Ok(v) => v.iter().map(|(s, r, b)| format!("{}:{}:{}", s, r, b)).collect::<Vec<_>>().join(";"),
+    }
+}
+
+/// Replay the history's operation list in the extracted model (driver command `rbbook`) and compare, around
+/// every armed commit / rollback, the model's manifest range and physically present records with the real
+/// ones, and the model's outcome with the real outcome.
+fn check_book(h: &History, prefix: &str, work: &Path, tr: &Translation, stdout: &str, cfg: &Cfg, model: &mut Model, out: &mut HistOutcome, sabotage: Option<&str>) {
+    // the real outcome of every operation of the script
+    let mut real: HashMap<usize, String> = HashMap::new();
+    for l in stdout.lines() {
+        let t: Vec<&str> = l.splitn(3, ' ').collect();
+        if t.len() == 3 && t[0] == "OP" {
+            if let Ok(i) = t[1].parse::<usize>() {
+                real.insert(i, t[2].to_string());
+            }
+        }
+    }
+    // the model's script
+    let segsz = if cfg.segsz == 0 { 64 * 1024 * 1024 } else { cfg.segsz };
+    let mut script = format!("# bookkeeping script of the history (format: ocaml/rbbook_cmds.ml)\ncfg {} {}\n", cfg.max_len, segsz);
+    // per model operation: (line, armed window, index of the operation in the history)
+    let mut mops: Vec<(String, Option<usize>, usize)> = Vec::new();
+    let (mut windows, mut opened) = (0usize, false);
+    for (i, o) in h.ops.iter().enumerate() {
+        match o {
+            Op::Open(_) => {
+                if opened {
+                    mops.push(("o".into(), None, i));
+                }
+                opened = true;
+            }
+            Op::Commit { .. } => {
+                let w = windows;
+                windows += 1;
+                let recs: Vec<&RecInfo> = tr.records.iter().filter(|r| r.window == Some(w)).collect();
+                if recs.len() != 1 {
+                    return; // reported by check_deltas ("appended N records, expected exactly one")
+                }
+                mops.push((format!("c {}", (12 + recs[0].plen + BLK - 1) / BLK), Some(w), i));
+            }
+            Op::Rollback(n) => {
+                let w = windows;
+                windows += 1;
+                mops.push((format!("r {}", n), Some(w), i));
+            }
+            _ => {}
+        }
+    }
+    if windows != tr.book_obs.len() {
+        let d = format!("{} armed operations in the script, {} armed windows in the observer's log", windows, tr.book_obs.len());
+        out.violations.push((format!("{}-rb-harness-log", prefix), d.clone(), replay_text(h, None, &d, "")));
+        return;
+    }
+    for (l, _, _) in &mops {
+        script.push_str(l);
+        script.push('\n');
+    }
+    let sfile = work.join("history.book");
+    std::fs::write(&sfile, &script).unwrap();
+    let variant = sabotage.and_then(|s| s.strip_prefix("book-")).map(|v| format!(" {}", v)).unwrap_or_default();
+    let reply = model.ask_multi(&format!("rbbook {}{}", sfile.display(), variant));
+    let lines: Vec<HashMap<String, String>> = reply.iter().filter(|l| l.starts_with("book ")).map(|l| kv_of(l)).collect();
+    out.book_histories += 1;
+    let mut reported = 0usize;
+    let mut report = |out: &mut HistOutcome, d: String| {
+        reported += 1;
+        if reported <= 3 {
+            let note = format!("{} | bookkeeping script: {}", d, script.lines().skip(1).collect::<Vec<_>>().join(" / "));
+            out.violations.push((format!("{}-rb-book-model", prefix), d, replay_text(h, None, &note, "")));
+        }
+    };
+    let g = |m: &HashMap<String, String>, k: &str| m.get(k).cloned().unwrap_or_default();
+    let state_diff = |m: &HashMap<String, String>, meta: (u64, u64), present: &Result<Vec<(u32, u64, u64)>, String>| -> Option<String> {
+        let (mman, mpres) = (g(m, "man"), g(m, "present"));
+        let (rman, rpres) = (format!("{}-{}", meta.0, meta.1), show_present(present));
+        if mman != rman || mpres != rpres {
+            Some(format!("model: manifest range {} records in the segment files (segment:id:blocks) {}; real: manifest range {} records {}", mman, mpres, rman, rpres))
+        } else {
+            None
+        }
+    };
+    for (k, (line, win, opi)) in mops.iter().enumerate() {
+        let what = format!("operation {} of the history (`{}`; model operation {} `{}`)", opi, h.ops[*opi].to_line().chars().take(30).collect::<String>(), k, line);
+        let Some(m) = lines.get(k) else {
+            report(out, format!("the model stopped before {}: it failed at model operation {} with {}", what, lines.len().saturating_sub(1), lines.last().map(|m| g(m, "out")).unwrap_or_default()));
+            break;
+        };
+        let Some(w) = win else { continue }; // a reopening: compared through the state before the next armed operation
+        let obs = &tr.book_obs[*w];
+        // the state before the operation (after the previous one, possibly a reopening)
+        if k > 0 {
+            if let Some(d) = state_diff(&lines[k - 1], obs.pre_meta, &obs.pre_present) {
+                let prev = &mops[k - 1];
+                report(out, format!("before {} - after model operation {} `{}`{} - the bookkeeping model and the real run differ: {}", what, k - 1, prev.0, if prev.1.is_none() { " (a reopening)" } else { "" }, d));
+                break;
+            }
+            if mops[k - 1].1.is_none() {
+                out.book_reopens_compared += 1;
+            }
+        }
+        // the outcome
+        let r = real.get(opi).cloned().unwrap_or_default();
+        let rclass = if r.starts_with("ok") { "ok" } else if r.starts_with("err") && r.contains("not enough logged") { "refused" } else { "fail" };
+        let mout = g(m, "out");
+        let mclass = if mout.starts_with("fail") { "fail" } else { mout.as_str() };
+        if rclass != mclass {
+            report(out, format!("{}: the bookkeeping model says `{}`, the real operation returned `{}`", what, mout, r.chars().take(200).collect::<String>()));
+            break;
+        }
+        // the state after the operation
+        if let Some(d) = state_diff(m, obs.post_meta, &obs.post_present) {
+            report(out, format!("after {} the bookkeeping model and the real run differ: {}", what, d));
+            break;
+        }
+        out.book_records_compared += obs.post_present.as_ref().map(|v| v.len()).unwrap_or(0);
+        if line.starts_with("r ") {
+            out.book_rollbacks_compared += 1;
+            if mclass == "refused" {
+                out.book_refusals_agreed += 1;
+            }
+        }
+        if mclass == "ok" {
+            out.book_syncs_compared += 1;
+        }
+        if out.book_sample.len() < 6 && (line.starts_with("r ") || k > 0 && mops[k - 1].1.is_none()) {
+            out.book_sample.push(format!("{} -> model & real: out={} manifest={} present={} (model live range {} mem {})", line, mout, g(m, "man"), g(m, "present"), g(m, "live"), g(m, "mem")));
+        }
+    }
+}
+
+
 fn run_history_in(h: &History, prefix: &str, work: &Path, out: &mut HistOutcome, opts: &RunOpts) {
     let db = work.join("db");
     let spool = work.join("spool");
@@ -986,6 +1171,7 @@ fn run_history_in(h: &History, prefix: &str, work: &Path, out: &mut HistOutcome,
         std::fs::write(format!("{}/{}.verdicts", d, opts.index), verdicts.join("\n") + "\n").ok();
     }
     check_deltas(h, prefix, work, &tr, &mut model, out, opts.sabotage.as_deref());
+    check_book(h, prefix, work, &tr, &stdout, &cfg, &mut model, out, opts.sabotage.as_deref());
     let mut failing: Vec<(usize, String, String)> = Vec::new();
     let mut targets: Vec<usize> = Vec::new();
     for (si, line) in tr.syncs.iter().zip(verdicts.iter()) {
@@ -1237,6 +1423,8 @@ pub fn cmd_rbtrace(kv: &HashMap<String, String>) -> i32 {
     let (mut model_s, mut child_s) = (0.0, 0.0);
     let (mut mutants, mut mutants_rejected) = (0usize, 0usize);
     let (mut d_records, mut d_entries, mut d_empty, mut d_absent, mut d_pmax) = (0usize, 0usize, 0usize, 0usize, 0usize);
+    let (mut b_hist, mut b_syncs, mut b_reopens, mut b_rollbacks, mut b_refusals, mut b_records) = (0usize, 0usize, 0usize, 0usize, 0usize, 0usize);
+    let mut b_sample: Vec<J> = Vec::new();
     let mut d_sample: Vec<J> = Vec::new();
     let mut accepted: Vec<J> = Vec::new();
     let mut n_accepted = 0usize;
@@ -1279,6 +1467,15 @@ pub fn cmd_rbtrace(kv: &HashMap<String, String>) -> i32 {
         d_empty += o.delta_empty_priors_seen;
         d_absent += o.delta_absent_priors_seen;
         d_pmax = d_pmax.max(o.delta_payload_max);
+        b_hist += o.book_histories;
+        b_syncs += o.book_syncs_compared;
+        b_reopens += o.book_reopens_compared;
+        b_rollbacks += o.book_rollbacks_compared;
+        b_refusals += o.book_refusals_agreed;
+        b_records += o.book_records_compared;
+        if b_sample.is_empty() && !o.book_sample.is_empty() {
+            b_sample = o.book_sample.iter().map(|s| J::s(s.clone())).collect();
+        }
         if d_sample.is_empty() && !o.delta_sample.is_empty() {
             d_sample = o.delta_sample.iter().map(|s| J::s(s.clone())).collect();
         }
@@ -1350,6 +1547,14 @@ pub fn cmd_rbtrace(kv: &HashMap<String, String>) -> i32 {
             ("delta_payload_bytes_max", J::Int(d_pmax as i64)),
             ("delta_rule", J::s("every record appended to the rollback log during a history: the payload (cut out of the segment files reconstructed from the observed writes) is decoded by the extracted DeltaCodec.decode_groups; it must decode, DeltaCodec.reencodes (encode_groups of the decoded groups in the decoded order = the payload) must hold with nothing left in the cursor, and the decoded map must be the reverse delta of the commit that appended it: its keys = the keys the commit wrote, each prior = the key's value before the commit in the map the harness maintains along the script (stack of maps for rollbacks); every commit appends exactly one record")),
             ("delta_sample_record", J::Arr(d_sample)),
+            ("book_histories", J::Int(b_hist as i64)),
+            ("book_syncs_compared", J::Int(b_syncs as i64)),
+            ("book_reopens_compared", J::Int(b_reopens as i64)),
+            ("book_rollbacks_compared", J::Int(b_rollbacks as i64)),
+            ("book_refused_rollbacks_agreed", J::Int(b_refusals as i64)),
+            ("book_present_records_compared", J::Int(b_records as i64)),
+            ("book_rule", J::s("every history is replayed in the extracted bookkeeping model of the rollback log (RbBook.b_step, theorems C09_rbbook_*): its operation list (commits with the size in 4 KiB blocks of the record the real commit appended, rollbacks with their n, reopenings; max_rollback_log_len and the segment size from the cfg) goes to the driver command `rbbook`; for every armed commit / rollback the model's manifest range is compared with the rollback_start_live / rollback_end_live of the REAL manifest after the operation, the model's physically present records (segment id, record id, blocks) with the records in the segment files reconstructed from the observed writes (and equal to the files left on disk), and the model's outcome (ok / refused) with the real one; the state BEFORE each armed operation is compared too, which covers what a reopening did to the files; sig <prop>-rb-book-model on any difference")),
+            ("book_sample", J::Arr(b_sample)),
             ("child_seconds_total", J::Num(child_s)),
             ("model_seconds_total", J::Num(model_s)),
         ])),
